@@ -1,4 +1,228 @@
-(* placeholder while the correspondence is being validated *)
+(* C31 WebSocket close codes and handshake follow the RFC.
+   Property theorems only; proofs live in Proofs/WsHandshakeA.v, WsHandshakeB.v, WsClose.v.
+   Models: Model/WsHandshake.v (Upgrader.Upgrade and util.go), Model/WsClose.v (close frames in conn.go,
+   websocketTransport.Close), Gen/WsConst.v (tables and constants translated from the Go source on every run).
+   Specifications: Model/WsHandshakeSpec.v (RFC 6455 4.2.1, RFC 7230 lists, RFC 4648), Model/WsCloseSpec.v
+   (RFC 6455 7.4), Model/WsUtf8.v (RFC 3629 grammar). *)
 From Coq Require Import List NArith Bool.
-From Cfg Require Import Model.WsHandshake.
-Theorem C31_placeholder : True. Proof. exact I. Qed.
+From Cfg Require Import Gen.WsConst Model.WsUtf8 Model.WsHandshake Model.WsHandshakeSpec Model.WsClose Model.WsCloseSpec
+     Proofs.WsHandshakeA Proofs.WsHandshakeB Proofs.WsClose.
+Import ListNotations.
+Open Scope N_scope.
+
+(* ------------------------------------------------------------------ handshake decision *)
+
+(* Whatever the request, if the server accepts it (101 / 200) then the request is a WebSocket
+   upgrade (method, Connection: upgrade, Upgrade: websocket, version 13, a key that is the base64
+   of 16 bytes; resp. extended CONNECT with :protocol websocket) and the origin check passed. *)
+Theorem C31_accept_sound : forall url_host u r,
+    accepted (upgrade url_host u r) = true ->
+    valid_upgrade_rx u r = true /\ origin_ok url_host u r = true.
+Proof. exact upgrade_sound. Qed.
+Print Assumptions C31_accept_sound.
+
+(* For requests whose list headers follow the sender grammar 1#token the server accepts EXACTLY the
+   valid upgrades that pass the origin check (all requests, all configurations not passing their own
+   Sec-WebSocket-Extensions response header). *)
+Theorem C31_accept_iff : forall url_host u r,
+    wellformed r = true -> config_sane u = true ->
+    (accepted (upgrade url_host u r) = true <-> valid_upgrade u r = true /\ origin_ok url_host u r = true).
+Proof. exact upgrade_iff. Qed.
+Print Assumptions C31_accept_iff.
+
+(* Without the well-formedness restriction the "if" direction fails: an empty list member, which
+   RFC 7230 section 7 tells recipients to ignore, hides the tokens after it. *)
+Theorem C31_accept_iff_unrestricted_refuted :
+  valid_upgrade_rx cfg_plain req_empty_member = true
+  /\ origin_ok (fun _ => None) cfg_plain req_empty_member = true
+  /\ accepted (upgrade (fun _ => None) cfg_plain req_empty_member) = false.
+Proof. exact upgrade_rx_converse_refuted. Qed.
+Print Assumptions C31_accept_iff_unrestricted_refuted.
+
+(* tokenListContainsValue against the list-header specification, both directions *)
+Theorem C31_token_list_sound : forall lines v,
+    token_list_contains_value lines v = true -> has_token lines v = true.
+Proof. exact tlcv_sound. Qed.
+Print Assumptions C31_token_list_sound.
+Theorem C31_token_list_complete : forall lines v,
+    lines_wf lines = true -> has_token lines v = true -> token_list_contains_value lines v = true.
+Proof. exact tlcv_complete. Qed.
+Print Assumptions C31_token_list_complete.
+
+(* ------------------------------------------------------------------ challenge key *)
+
+(* isValidChallengeKey with a destination buffer of at least 16 bytes says "valid" exactly for
+   22 base64 characters followed by "==" (= the base64 encodings of 16 bytes), for ALL strings. *)
+Theorem C31_key_valid_iff : forall cap s,
+    16 <= cap -> (is_valid_challenge_key cap s = KValid <-> valid_key s = true).
+Proof. exact key_valid_iff. Qed.
+Print Assumptions C31_key_valid_iff.
+
+(* It never panics when the buffer has DecodedLen(24) = 18 bytes ... *)
+Theorem C31_key_no_panic_cap18 : forall cap s, 18 <= cap -> is_valid_challenge_key cap s <> KPanic.
+Proof. exact key_no_panic. Qed.
+Print Assumptions C31_key_no_panic_cap18.
+
+(* ... but with the 16 byte buffer of the current source an unpadded 24 character key is an index
+   panic inside base64.Decode (finding: replayed on the real Upgrader by the driver). *)
+Theorem C31_key_no_panic_cap16_refuted : is_valid_challenge_key 16 key_unpadded = KPanic.
+Proof. exact key_panic_cap16. Qed.
+Print Assumptions C31_key_no_panic_cap16_refuted.
+
+(* Hence: once the source allocates >= 18 bytes (Gen.WsConst.key_buf_cap is read from util.go on
+   every run) the whole handshake function is total.  Vacuous while key_buf_cap = 16. *)
+Theorem C31_upgrade_no_panic_if_cap18 : 18 <= key_buf_cap -> forall url_host u r, upgrade url_host u r <> Panic.
+Proof. exact upgrade_no_panic. Qed.
+Print Assumptions C31_upgrade_no_panic_if_cap18.
+
+(* ------------------------------------------------------------------ answer *)
+
+(* Sec-WebSocket-Accept = base64(sha1(key ++ GUID)) with the GUID of RFC 6455 section 1.3
+   (the GUID constant is translated from util.go; sha1/base64 are the library parameter). *)
+Theorem C31_accept_key_rfc : forall lib k, accept_key lib k = lib (k ++ rfc_guid).
+Proof. exact accept_key_rfc. Qed.
+Print Assumptions C31_accept_key_rfc.
+
+(* the negotiated subprotocol is one the server supports and the client offered *)
+Theorem C31_subprotocol_offered : forall u r protos,
+    u_subprotocols u = Some protos -> select_subprotocol u r <> [] ->
+    In (select_subprotocol u r) protos /\ In (select_subprotocol u r) (offered_protocols r).
+Proof. exact subprotocol_offered. Qed.
+Print Assumptions C31_subprotocol_offered.
+
+(* compression is negotiated only when enabled and when the client offered permessage-deflate *)
+Theorem C31_compression_offered : forall u r,
+    negotiate_compress u r = true -> u_compression u = true /\ In s_pmd (offered_extensions r).
+Proof. exact compression_offered. Qed.
+Print Assumptions C31_compression_offered.
+
+(* ------------------------------------------------------------------ received close frames *)
+
+(* The table of the source, as it is now, against RFC 6455 7.4 for ALL 65536 status codes
+   (finite sweep inside Coq, the bound is in the statement). *)
+Theorem C31_close_code_table : forall c, c < 65536 ->
+    is_valid_received_close_code c = rfc_close_defined c || (c =? 1012) || (c =? 1013).
+Proof. exact close_code_table. Qed.
+Print Assumptions C31_close_code_table.
+
+Theorem C31_reject_codes : forall c, c < 65536 ->
+    rfc_close_forbidden c = true -> is_valid_received_close_code c = false.
+Proof. exact close_code_forbidden_rejected. Qed.
+Print Assumptions C31_reject_codes.
+
+Theorem C31_accept_codes : forall c, c < 65536 ->
+    rfc_close_defined c = true -> is_valid_received_close_code c = true.
+Proof. exact close_code_defined_accepted. Qed.
+Print Assumptions C31_accept_codes.
+
+(* utf8.ValidString's algorithm accepts exactly the RFC 3629 grammar *)
+Theorem C31_utf8_valid_iff : forall s, utf8_valid s = true <-> utf8_wf s.
+Proof. exact utf8_valid_iff_wf. Qed.
+Print Assumptions C31_utf8_valid_iff.
+
+(* A received close frame with a forbidden code or a reason that is not UTF-8 is rejected: protocol
+   error, the peer's code is not recorded, and (unless a close frame was sent before) exactly one
+   close frame with status 1002 is written. *)
+Theorem C31_recv_close_rejects : forall st a b text msg,
+    a < 256 -> b < 256 -> read_dead st = false -> t_closed st = false ->
+    rfc_close_forbidden (be16 a b) = true \/ utf8_valid text = false ->
+    exists st' w,
+      recv_close st (a :: b :: text) msg = (st', w, RProtoErr)
+      /\ read_dead st' = true
+      /\ (recorded st' = recorded st \/ (recorded st = 0 /\ recorded st' = 1002))
+      /\ (close_sent st = false -> write_failed st = false -> exists f, w = [f] /\ payload_code f = 1002).
+Proof. exact recv_close_rejects. Qed.
+Print Assumptions C31_recv_close_rejects.
+
+Theorem C31_recv_close_accepts : forall st a b text msg,
+    a < 256 -> b < 256 -> read_dead st = false -> t_closed st = false ->
+    rfc_close_defined (be16 a b) = true -> utf8_valid text = true ->
+    exists st' w, recv_close st (a :: b :: text) msg = (st', w, RClose (be16 a b) text)
+                  /\ (recorded st = 0 -> close_code st' = (be16 a b, true)).
+Proof. exact recv_close_accepts. Qed.
+Print Assumptions C31_recv_close_accepts.
+
+(* ------------------------------------------------------------------ close frame sent by the transport *)
+
+(* websocketTransport.Close(disconnect) on an open connection that has not sent a close frame:
+   whenever code and reason fit in a control frame, exactly one close frame carrying code and the
+   whole reason is written, and that code is what CloseCode() reports if nothing was recorded before. *)
+Theorem C31_close_fits : forall st code reason,
+    t_closed st = false -> close_sent st = false -> write_failed st = false ->
+    fits_close_frame code reason = true ->
+    exists st', transport_close st code reason = (st', [close_payload code reason])
+                /\ t_closed st' = true
+                /\ (recorded st = 0 -> close_code st' = (code, false)).
+Proof. exact transport_close_fits. Qed.
+Print Assumptions C31_close_fits.
+
+(* a reason that does not fit is never truncated into a frame *)
+Theorem C31_close_too_long_no_frame : forall st code reason,
+    code <> 1005 -> 125 < 2 + N.of_nat (length reason) -> snd (transport_close st code reason) = [].
+Proof. exact transport_close_too_long. Qed.
+Print Assumptions C31_close_too_long_no_frame.
+
+(* ------------------------------------------------------------------ first close wins *)
+
+(* For EVERY sequence of close events on a fresh connection (application WriteControl(Close),
+   transport.Close, peer close frames, in any order and number) CloseCode() reports the code and the
+   direction of the first close frame that was written to, or validly read from, the wire.
+   event_wf: payload bytes are bytes, and the application never sends status code 0. *)
+Theorem C31_first_wins : forall es,
+    Forall event_wf es ->
+    match first_close (snd (run_events c_init es)) with
+    | Some (c, i) => close_code (fst (run_events c_init es)) = (c, i)
+    | None => True
+    end.
+Proof. exact first_close_wins. Qed.
+Print Assumptions C31_first_wins.
+
+(* The restriction is needed: WriteControl records the code before it knows whether the frame is
+   written, and never records 0. *)
+Theorem C31_first_wins_code0_refuted :
+  let es := [EvWriteClose [0; 0]; EvWriteClose [15; 160]; EvRecvClose [3; 232] []] in
+  let '(st, os) := run_events c_init es in
+  first_close os = Some (0, false) /\ close_code st = (4000, false)
+  /\ flat_map observed_closes os = [(0, false); (1000, true)].
+Proof. exact first_close_wins_code0_refuted. Qed.
+Print Assumptions C31_first_wins_code0_refuted.
+
+(* ------------------------------------------------------------------ non-vacuity *)
+
+Definition ex_req : request :=
+  mkRequest 1 s_GET (bytes_of_string "server.example.com") [bytes_of_string "keep-alive, Upgrade"] [s_websocket] [s_13]
+            [bytes_of_string "dGhlIHNhbXBsZSBub25jZQ=="] [bytes_of_string "http://server.example.com"]
+            [bytes_of_string "chat, centrifuge-json"] [bytes_of_string "permessage-deflate; client_max_window_bits"] [].
+Definition ex_cfg : config :=
+  mkConfig (Some [bytes_of_string "centrifuge-json"; bytes_of_string "centrifuge-protobuf"]) true false None false None.
+Definition ex_host (_ : bytes) : option bytes := Some (bytes_of_string "SERVER.example.com").
+
+Example C31_ex_accept :
+  upgrade ex_host ex_cfg ex_req
+  = Accept (Some (bytes_of_string "dGhlIHNhbXBsZSBub25jZQ==")) (bytes_of_string "centrifuge-json") true
+  /\ wellformed ex_req = true /\ valid_upgrade ex_cfg ex_req = true /\ config_sane ex_cfg = true.
+Proof. vm_compute. auto. Qed.
+
+Example C31_ex_reject_origin :
+  upgrade (fun _ => Some (bytes_of_string "evil.example.com")) ex_cfg ex_req = Reject 403.
+Proof. vm_compute. reflexivity. Qed.
+
+Example C31_ex_reject_version :
+  upgrade ex_host ex_cfg (mkRequest 1 s_GET [] [s_upgrade] [s_websocket] [bytes_of_string "8"] [bytes_of_string "dGhlIHNhbXBsZSBub25jZQ=="] [] [] [] [])
+  = Reject 400.
+Proof. vm_compute. reflexivity. Qed.
+
+Example C31_ex_fits : fits_close_frame 3501 (repeat 97 123) = true /\ fits_close_frame 3501 (repeat 97 124) = false.
+Proof. vm_compute. auto. Qed.
+
+Example C31_ex_forbidden : rfc_close_forbidden 1005 = true /\ rfc_close_forbidden 2999 = true /\ rfc_close_defined 4000 = true.
+Proof. vm_compute. auto. Qed.
+
+Example C31_ex_session :
+  let es := [EvRecvClose [3; 232; 111; 107] []; EvTransportClose 3501 [98; 121; 101]] in
+  Forall event_wf es /\ snd (run_events c_init es) = [ORecv [[3; 232]] (RClose 1000 [111; 107]); OTransport []]
+  /\ close_code (fst (run_events c_init es)) = (1000, true).
+Proof.
+  split; [|vm_compute; auto].
+  repeat constructor; vm_compute; try reflexivity; try discriminate.
+Qed.
